@@ -362,6 +362,15 @@ def witnesses():
         ("p_from_q", "P x = q; (void)x;", "reject"), ("call_p_with_q", "takep(q);", "reject"),
         ("maker_p_of_q", "(void)au::make_quantity_point<U>(q);", "reject"), ("p_as_q", "(void)p.as(q);", "reject"),
         ("neg_p", "(void)(-p);", "reject"), ("q_minus_p", "(void)(q - p);", "reject"),
+        # ... and EXPLICITLY: no spelling of a construction turns the one into the other (the only
+        # doors are the makers with a raw number, and point - point / point +- quantity)
+        ("p_brace_q", "P x{q}; (void)x;", "reject"), ("p_paren_q", "P x(q); (void)x;", "reject"), ("p_cast_q", "(void)static_cast<P>(q);", "reject"),
+        ("p_functional_q", "(void)P(q);", "reject"), ("p_brace_q_other_unit", "(void)au::QuantityPoint<au::Celsius, double>{au::kelvins(3)};", "reject"),
+        ("p_brace_constant", "(void)au::QuantityPoint<au::Kelvins, double>{au::make_constant(au::kelvins)};", "reject"),
+        ("p_brace_raw", "P x{R{3}}; (void)x;", "reject"), ("p_assign_q", "p = q;", "reject"),
+        ("q_brace_p", "Q x{p}; (void)x;", "reject"), ("q_paren_p", "Q x(p); (void)x;", "reject"), ("q_cast_p", "(void)static_cast<Q>(p);", "reject"), ("q_assign_p", "q = p;", "reject"),
+        ("traits_never", "static_assert(!std::is_constructible<P, Q>::value && !std::is_constructible<Q, P>::value && !std::is_convertible<Q, P>::value && !std::is_convertible<P, Q>::value"
+                         " && !std::is_assignable<P &, Q>::value && !std::is_assignable<Q &, P>::value && !std::is_constructible<P, R>::value && !std::is_constructible<P, au::Quantity<au::Kelvins, double>>::value, \"neither class is constructible, convertible or assignable from the other\");", "accept"),
         # controls: the affine operations compile
         ("ctl_p_minus_p", "(void)(p - p2);", "accept"), ("ctl_p_plus_q", "(void)(p + q); (void)(q + p); (void)(p - q);", "accept"),
         ("ctl_pluseq_q", "p += q; p -= q;", "accept"), ("ctl_cmp", "(void)(p < p2); (void)(p == p2);", "accept"),
